@@ -8,6 +8,7 @@ macro_rules! c20_roundtrip {
     ($name:ident, $L:expr, $U:expr) => {
         #[kani::proof]
         #[kani::unwind($U)]
+        #[kani::stub(InnerHeap::grow, grow_fail)]
         fn $name() {
             const L: usize = $L;
             const CELLS: usize = L / 8 + 2; // cells the segment may occupy (incl. extra pad cell)
@@ -95,6 +96,7 @@ macro_rules! c20_copy {
     ($name:ident, $L:expr, $U:expr) => {
         #[kani::proof]
         #[kani::unwind($U)]
+        #[kani::stub(InnerHeap::grow, grow_fail)]
         fn $name() {
             const L: usize = $L;
             const SC: usize = L / 8 + 2;
@@ -142,6 +144,7 @@ macro_rules! c20_last {
     ($name:ident, $L:expr, $U:expr) => {
         #[kani::proof]
         #[kani::unwind($U)]
+        #[kani::stub(InnerHeap::grow, grow_fail)]
         fn $name() {
             const L: usize = $L;
             const SC: usize = L / 8 + 2;
@@ -180,6 +183,7 @@ macro_rules! c20_last_mb {
     ($name:ident, $P:expr, $tail:expr) => {
         #[kani::proof]
         #[kani::unwind(20)]
+        #[kani::stub(InnerHeap::grow, grow_fail)]
         fn $name() {
             const P: usize = $P;                 // ASCII prefix length
             let tailb: &[u8] = $tail;            // UTF-8 bytes of the last character
